@@ -922,7 +922,8 @@ fn gen_ref(rng: &mut Rng, outer: &[Outer], rt: i64, ntok: usize) -> VRef {
 }
 
 /// one non-union constraint that is in the fragment for result type rt
-fn gen_simple(rng: &mut Rng, rt: i64, outer: &[Outer], texts: bool) -> Cst {
+fn gen_simple(rng: &mut Rng, rt: i64, outer: &[Outer], cfg: &QCfg) -> Cst {
+    let texts = cfg.texts;
     let set = |rng: &mut Rng| rng.below(4) as i64;
     let key = |rng: &mut Rng| rng.below(3) as i64;
     for _ in 0..20 {
@@ -949,7 +950,17 @@ fn gen_simple(rng: &mut Rng, rt: i64, outer: &[Outer], texts: bool) -> Cst {
                             0 => {
                                 let b = rng.below(6);
                                 let e = b + rng.below(4);
-                                Some(Cst::Text(text_cps(b, e), rng.chance(1, 3)))
+                                let nocase = rng.chance(1, 3);
+                                let mut t = if !cfg.pool.is_empty() && rng.chance(3, 4) { rng.pick(&cfg.pool).clone() } else { text_cps(b, e) };
+                                if nocase && rng.chance(1, 2) {
+                                    // NOCASE with capitals in the literal
+                                    for c in t.iter_mut() {
+                                        if (97..=122).contains(c) {
+                                            *c -= 32;
+                                        }
+                                    }
+                                }
+                                Some(Cst::Text(t, nocase))
                             }
                             1 => pick_var(rng, outer, 5).or(pick_var(rng, outer, 0)).map(Cst::TextVar),
                             _ => pick_var(rng, outer, 5).or(pick_var(rng, outer, 0)).map(|v| Cst::Rel(v, rng.below(10) as i64)),
@@ -997,7 +1008,13 @@ fn gen_simple(rng: &mut Rng, rt: i64, outer: &[Outer], texts: bool) -> Cst {
                 5 => Some(Cst::KeyVal(set(rng), key(rng), gen_dop(rng), false)),
                 6 => Some(Cst::Val(gen_dop(rng))),
                 7 => pick_var(rng, outer, 1).map(|v| Cst::DataVar(v, false)),
-                8 => pick_var(rng, outer, 5).map(Cst::TextVar),
+                8 => pick_var(rng, outer, 5).map(Cst::TextVar).or_else(|| {
+                    if !cfg.pool.is_empty() {
+                        Some(Cst::Text(rng.pick(&cfg.pool).clone(), rng.chance(1, 3)))
+                    } else {
+                        None
+                    }
+                }),
                 _ => pick_var(rng, outer, 5).or(pick_var(rng, outer, 0)).map(|v| Cst::Rel(v, rng.below(10) as i64)),
             },
         };
@@ -1015,6 +1032,8 @@ fn gen_simple(rng: &mut Rng, rt: i64, outer: &[Outer], texts: bool) -> Cst {
 }
 
 pub struct QCfg {
+    /// texts of annotations of the store the queries are meant for (literals that can match)
+    pub pool: Vec<Vec<i64>>,
     pub rts: Vec<i64>,
     pub texts: bool,
     pub unions: bool,
@@ -1023,11 +1042,11 @@ pub struct QCfg {
 }
 
 pub fn gen_cst(rng: &mut Rng, rt: i64, outer: &[Outer], cfg: &QCfg) -> Cst {
-    if cfg.unions && rng.chance(1, 6) {
+    if cfg.unions && rng.chance(1, if rt == 5 { 12 } else { 6 }) {
         let n = 2 + rng.below(2);
-        Cst::Union((0..n).map(|_| gen_simple(rng, rt, outer, cfg.texts)).collect())
+        Cst::Union((0..n).map(|_| gen_simple(rng, rt, outer, cfg)).collect())
     } else {
-        gen_simple(rng, rt, outer, cfg.texts)
+        gen_simple(rng, rt, outer, cfg)
     }
 }
 
@@ -1045,7 +1064,7 @@ pub fn gen_query(rng: &mut Rng, cfg: &QCfg, outer: &mut Vec<Outer>, depth: usize
     // a sub-query normally refers to an enclosing variable
     if depth > 0 && rng.chance(4, 5) {
         for _ in 0..10 {
-            let c = gen_simple(rng, rt, outer, cfg.texts);
+            let c = gen_simple(rng, rt, outer, cfg);
             if !var_free(&c) {
                 if cs.is_empty() {
                     cs.push(c);
@@ -1057,8 +1076,12 @@ pub fn gen_query(rng: &mut Rng, cfg: &QCfg, outer: &mut Vec<Outer>, depth: usize
             }
         }
     }
-    let lim = if cfg.limits && rng.chance(1, 4) { Some((rng.range(-3, 4), rng.range(-3, 4))) } else { None };
-    let opt = depth > 0 && rng.chance(1, 2);
+    // the order of TEXT results (textual order, ties between resources by an unstable sort) is
+    // not modelled: no LIMIT on a TEXT level, no OPTIONAL level below one (what an OPTIONAL
+    // without results cuts off depends on that order, Known_C08_optional)
+    let under_text = outer.iter().any(|o| o.rt == 5);
+    let lim = if cfg.limits && rt != 5 && rng.chance(1, 4) { Some((rng.range(-3, 4), rng.range(-3, 4))) } else { None };
+    let opt = depth > 0 && !under_text && rng.chance(1, 2);
     let sub = if depth < cfg.max_depth && rng.chance(if depth == 0 { 2 } else { 1 }, 4) {
         outer.push(Outer { name, rt });
         let s = gen_query(rng, cfg, outer, depth + 1);
